@@ -61,6 +61,7 @@ type FuncContract struct {
 	Iterates   []*Iterates
 	Decreases  *Clause
 	GhostEntry []*GhostAssign
+	CallbackInvs []*SiteAssert // invariant of a callback loop run by an unknown callee (Match = callee method/function name)
 	SiteAsserts []*SiteAssert
 	AssumeLocked []*Clause // protocol assumptions evaluated right after the first guarded Lock (listed as assumptions)
 }
@@ -163,7 +164,7 @@ func (cs *ContractSet) forFunc(fn *ssa.Function) *FuncContract {
 
 var clauseKW = map[string]bool{"func": true, "type": true, "pure": true, "uf": true, "lemma": true, "ghost": true, "requires": true, "ensures": true,
 	"modifies": true, "decreases": true, "loop": true, "iterates": true, "concurrent": true, "props": true, "terminates": true,
-	"noinline": true, "assert": true, "assume": true, "axiom": true, "assumelocked": true, "ghostentry": true, "callback": true, "arith": true, "nonnil": true, "guards": true, "invariant": true, "latch": true, "params": true, "results": true, "trusted": true, "purefn": true}
+	"noinline": true, "callbackinv": true, "assert": true, "assume": true, "axiom": true, "assumelocked": true, "ghostentry": true, "callback": true, "arith": true, "nonnil": true, "guards": true, "invariant": true, "latch": true, "params": true, "results": true, "trusted": true, "purefn": true}
 
 var tagRe = regexp.MustCompile(`^(\w+)\[([A-Z0-9, ]+)\]`)
 
@@ -397,6 +398,21 @@ func (cs *ContractSet) LoadContractFile(path string, pkgKey string) error {
 				return fail("%v", err)
 			}
 			cs.axioms = append(cs.axioms, &Axiom{Scope: pkgKey, Expr: e, Text: rest})
+		case "callbackinv":
+			// callbackinv "<callee name>" : expr -- holds before the call, is preserved by every run of the closure passed
+			// to it (the closure's own contract must require and ensure it), hence holds after the call
+			if curF == nil {
+				return fail("callbackinv outside func block")
+			}
+			m := regexp.MustCompile(`^"((?:[^"\\]|\\.)*)"\s*:\s*(.*)$`).FindStringSubmatch(rest)
+			if m == nil {
+				return fail(`callbackinv "<callee>" : <expr>`)
+			}
+			e, err := ParseExpr(m[2])
+			if err != nil {
+				return fail("%v", err)
+			}
+			curF.CallbackInvs = append(curF.CallbackInvs, &SiteAssert{Match: m[1], Expr: e, Text: m[2], Props: props})
 		case "assert", "assume":
 			if curF == nil {
 				return fail("assert outside func block")
